@@ -55,4 +55,19 @@ PROPS = {
         trusted=["hand-written engine model (engine suite)", "ltx.Decoder.Verify as the file-integrity oracle", "file modification times are set by the harness (os.Chtimes) to simulate age"],
         assumptions=["no backup client configured in this suite (HWM rule covered under C14)"],
     ),
+    "C07": dict(
+        suites=[dict(name="replica", model="replica", spec="replica-spec", spec_on_impl=True, shrink="prefix", thorough_shards=16)],
+        predicate="on a node without write authority: image and position equal the virtual primary's at every step, position changes only when a transaction file was applied, page/journal/WAL writes and journal creation, drop and import answer read-only (Driver/EngineSpecD.lean)",
+        explanation="C07_* theorems on the engine model: every mutating entry point refuses without write authority and leaves the state untouched; ungated operations cannot touch position or log; a WAL commit step that starts after authority was lost publishes nothing; the refusal at the head of each Go entry point is a regenerated fact (C07_all_gated). The replica suite drives a real non-primary Store through the real stream path and attacks it with every operation kind.",
+        trusted=["hand-written engine model (replica/engine suites)", "go/ast fact extractor for the gate table", "the stream path is entered through the verif hook VerifProcessLTXStreamFrame (same function the stream reader calls)"],
+        assumptions=["demotion during an in-flight rollback-journal commit: the gate is at the entry of CommitJournal only (stated in DESIGN.md); goroutine-level interleavings inside one call are not modelled"],
+    ),
+    "C15": dict(
+        suites=[dict(name="engine", model="engine", spec="engine-spec", spec_on_impl=True, shrink="prefix", thorough_shards=16, arg="drop"),
+                dict(name="replica", model="replica", spec="replica-spec", spec_on_impl=True, shrink="prefix", thorough_shards=8)],
+        predicate="after a drop: position = previous TXID + 1 with the empty checksum, no database/journal/WAL file, tombstone in the chain; re-creation continues the TXID sequence; replicas reach the same state through the stream (Driver/EngineSpecD.lean)",
+        explanation="C15_* theorems on the engine model (drop state, tombstone file, re-creation continues the log) and spec level (tombstone empties any image; empty checksum). Histories with drop and re-creation on a real primary, and tombstones / re-creations streamed to a real replica.",
+        trusted=["hand-written engine model (engine and replica suites)", "page size per name is kept fixed in this suite (size change belongs to C16)"],
+        assumptions=["crash points inside the drop are covered under C05", "directory listings (RootHandle.ReadDirAll) are not driven: the FUSE layer needs a mount"],
+    ),
 }
